@@ -239,6 +239,12 @@ def run(cfg):
                 okp, why = False, 'returns %r when this - that is %s' % (got, 'negative' if v < 0 else 'positive' if v > 0 else 'zero')
                 break
         ob('R3', f.name, f.loc, okp and n >= 3, why or 'fewer than three orderings distinguished')
+        # the instants are compared, never subtracted: the difference of two int32 instants needs 33 bits
+        arith = [e for e in all_exprs(f.body) if e.k == 'bin' and e.a[0] in ('-', '+') and
+                 any(x.k == 'call' and x.a[0].endswith('::toEpochSeconds') or (x.k == 'var' and x.a[0] in _epoch_locals(f)) for x in walk_expr(e))]
+        ob('R3', f.name + ':no-difference', f.loc, not arith,
+           'compareTo computes %s: the difference of two 32-bit instants does not fit 32 bits, so for instants more than 2^31 seconds (68 years) apart '
+           'its sign - and the order - is wrong' % (show(arith[0]) if arith else ''))
     f, s = summarize(lib, 'ace_time::ZonedDateTime::compareTo')
     okp, npaths, why = True, 0, 'does not delegate to mOffsetDateTime.compareTo(that.mOffsetDateTime)'
     for g, kind, res, eff in s.paths:
@@ -302,6 +308,15 @@ def run(cfg):
     return R
 
 
+def _epoch_locals(f):
+    """locals of f initialised from toEpochSeconds()"""
+    out = set()
+    for s in walk_stmts(f.body):
+        if s.k == 'decl' and s.a[2] is not None and any(x.k == 'call' and x.a[0].endswith('::toEpochSeconds') for x in walk_expr(s.a[2])):
+            out.add(s.a[0])
+    return out
+
+
 def _days_expr(f):
     for st in walk_stmts(f.body):
         if st.k == 'decl' and st.a[0] == 'days' and st.a[2] is not None:
@@ -328,6 +343,10 @@ SELFTEST = [
          find='        TimeOffset timeOffset = timeZone.getUtcOffset(epochSeconds);', replace='        TimeOffset timeOffset = timeZone.getUtcOffset(epochSeconds - 1);', rule='R4'),
     dict(id='floor-division-twin-differs', file='src/ace_time/LocalDate.h',
          find='            ? (epochSeconds + 1) / 86400 - 1', replace='            ? epochSeconds / 86400 - 1', rule='R5'),
+    dict(id='compare-by-wrapped-difference', file='src/ace_time/OffsetDateTime.h',
+         find='      if (thisSeconds < thatSeconds) return -1;\n      if (thisSeconds > thatSeconds) return 1;\n      return 0;',
+         replace='      acetime_t d = (acetime_t) ((uint32_t) thisSeconds - (uint32_t) thatSeconds);\n      if (d < 0) return -1;\n      if (d > 0) return 1;\n      return 0;',
+         rule='R3', construct='no-difference'),
     dict(id='zoned-compare-same-zone-shortcut', file='src/ace_time/ZonedDateTime.h',
          find='      return mOffsetDateTime.compareTo(that.mOffsetDateTime);',
          replace='      if (mTimeZone == that.mTimeZone) return localDateTime().compareTo(that.localDateTime());\n      return mOffsetDateTime.compareTo(that.mOffsetDateTime);', rule='R3', construct='ZonedDateTime::compareTo'),
